@@ -270,6 +270,21 @@ def delivered (tr : List Ev) : List Nat :=
 def added (tr : List Ev) : List Nat :=
   tr.filterMap fun | .add r _ _ => some r | _ => none
 
+/-- like `stepP`, but an `add` on `t` issued while a triggering event on `t` is in progress registers
+    nothing (the code ignores it: the list is being destroyed);
+    state = (registrations of `t`, trackable whose triggering event is in progress) -/
+def stepP2 (t : Nat) (st : List (Nat × Nat) × Option Nat) (e : Ev) : List (Nat × Nat) × Option Nat :=
+  (match e with
+   | .add r t' d => if t' = t ∧ st.2 ≠ some t then st.1 ++ [(r, d)] else st.1
+   | .rem t' d => if t' = t then st.1.eraseP (fun x => x.2 == d) else st.1
+   | .done t' => if t' = t then [] else st.1
+   | _ => st.1,
+   stepR st.2 e)
+
+/-- round-aware `present`: the registrations of `t` after the events `tr`, an `add` on `t` from inside
+    a triggering event on `t` counted as no registration -/
+def present2 (t : Nat) (tr : List Ev) : List (Nat × Nat) := (tr.foldl (stepP2 t) ([], none)).1
+
 /-! ### driver: text → history → canonical result -/
 
 def parseNats (s : String) : Option (List Nat) := (s.splitOn ".").mapM String.toNat?
